@@ -2,7 +2,7 @@
    facts come from the C04 / C11 development (Proofs/Transfer*.v) and are lifted here to the
    sequence of groups, then tied to the storage map and the index ([designated], [reachable]). *)
 From Coq Require Import NArith List Bool Lia Permutation.
-From DvcData Require Import Base.Val Model.Transfer Model.PushFetch Proofs.TransferBase Proofs.TransferStatus Proofs.TransferLoop Proofs.TransferProofs Proofs.PushFetchResolve.
+From DvcData Require Import Base.Val Model.Transfer Gen.StorageMap Model.PushFetch Proofs.TransferBase Proofs.TransferStatus Proofs.TransferLoop Proofs.TransferProofs Proofs.PushFetchResolve.
 Import ListNotations.
 Open Scope N_scope.
 
